@@ -367,7 +367,7 @@ func (f *FnCtx) autoInline(fn *ssa.Function) bool {
 				n++
 			}
 			switch in.(type) {
-			case *ssa.Go, *ssa.Defer, *ssa.Select:
+			case *ssa.Go, *ssa.Defer:
 				return false
 			}
 		}
@@ -2326,7 +2326,7 @@ func inlinableStatic(fn *ssa.Function) bool {
 				n++
 			}
 			switch in.(type) {
-			case *ssa.Go, *ssa.Defer, *ssa.Select:
+			case *ssa.Go, *ssa.Defer:
 				return false
 			}
 		}
